@@ -19,6 +19,7 @@ Local Open Scope Z_scope.
 (* ---------- static board description + dynamic state ---------- *)
 Record input := {
   i_type : Z; i_flags : Z; i_relay : Z; i_drelay : Z; i_atcap : Z;
+  i_chan : Z;          (* channel (ACTIONTRIGGER channel of the input) *)
   i_at : Z;            (* active_triggers *)
   i_maxc : Z;          (* max_clicks *)
   i_last : Z;          (* last_state *)
@@ -138,7 +139,7 @@ Definition set_active_triggers (x : input) (mask : Z) : input :=
   let '(rel, drel) :=
     if disable then (if i_drelay x =? 255 then (255, i_relay x) else (i_relay x, i_drelay x))
     else (if negb (i_drelay x =? 255) then (i_drelay x, 255) else (i_relay x, i_drelay x)) in
-  {| i_type := i_type x; i_flags := i_flags x; i_relay := rel; i_drelay := drel; i_atcap := i_atcap x;
+  {| i_type := i_type x; i_flags := i_flags x; i_relay := rel; i_drelay := drel; i_atcap := i_atcap x; i_chan := i_chan x;
      i_at := act; i_maxc := mc; i_last := i_last x; i_cnt := if changed then 0 else i_cnt x; i_lsc := i_lsc x;
      i_armed := if changed then false else i_armed x; i_adv := i_adv x |}.
 
@@ -153,7 +154,7 @@ Definition with_rss (s : st) (l : list shutter) : st :=
      inputs := inputs s; rss := l |}.
 Definition set_input (s : st) (i : Z) (x : input) : st := with_inputs s (setn (inputs s) i x).
 Definition upd_in (x : input) (last cnt lsc : Z) (armed adv : bool) : input :=
-  {| i_type := i_type x; i_flags := i_flags x; i_relay := i_relay x; i_drelay := i_drelay x; i_atcap := i_atcap x;
+  {| i_type := i_type x; i_flags := i_flags x; i_relay := i_relay x; i_drelay := i_drelay x; i_atcap := i_atcap x; i_chan := i_chan x;
      i_at := i_at x; i_maxc := i_maxc x; i_last := last; i_cnt := cnt; i_lsc := lsc; i_armed := armed; i_adv := adv |}.
 
 (* supla_esp_devconn_stop *)
@@ -447,6 +448,20 @@ Definition pre_iter (s : st) : st :=
     if negb (band (blank s) 2) then with_rss s1 (map (fun r => if r_ex r then set_rflags r (r_regflags r) else r) (rss s1)) else s1
   else s.
 
+(* channel configuration messages (SET_CHANNEL_CONFIG / GET_CHANNEL_CONFIG_RESULT) *)
+Definition chcfg_gate (p : list Z) : bool :=
+  (CHCFG_SIZE - CHCFG_MAX <=? len p) && (len p <=? CHCFG_SIZE) && (le16 p CHCFG_OFF_CFGSIZE =? len p - (CHCFG_SIZE - CHCFG_MAX)).
+Definition chcfg_is_at (p : list Z) : bool :=
+  chcfg_gate p && (nthz p CHCFG_OFF_CHANNEL <? CHANNEL_MAX) && (s32 (le32 p CHCFG_OFF_FUNC) =? FUNC_ACTIONTRIGGER) &&
+  (nthz p CHCFG_OFF_TYPE =? 0) && (le16 p CHCFG_OFF_CFGSIZE =? ATCFG_SIZE).
+(* a channel-config message this model does not follow: passes the gate, addresses a channel the device stores, and is
+   neither for the ACTIONTRIGGER function nor empty (empty ones only mark "no config on the server yet") *)
+Definition chcfg_unmodelled (call : Z) (p : list Z) : bool :=
+  ((call =? CALL_SET_CHANNEL_CONFIG) || (call =? CALL_GET_CHANNEL_CONFIG_RESULT)) && chcfg_gate p &&
+  (nthz p CHCFG_OFF_CHANNEL <? CHANNEL_MAX) && negb (s32 (le32 p CHCFG_OFF_FUNC) =? FUNC_ACTIONTRIGGER) && negb (le16 p CHCFG_OFF_CFGSIZE =? 0).
+Definition at_cfg (l : list input) (ch mask : Z) : list input :=
+  map (fun x => if i_chan x =? ch then set_active_triggers x mask else x) l.
+
 (* supla_esp_on_remote_call_received after a well-framed packet was queued *)
 Definition srv (s : st) (call : Z) (p : list Z) : st * list out :=
   let s := pre_iter s in
@@ -466,6 +481,12 @@ Definition srv (s : st) (call : Z) (p : list Z) : st * list out :=
       (s', rest ++ (if unauth_class p then [Inert (list_eqb (concat (calib_all s)) (concat (calib_all s')) &&
                                                    (entertime s =? entertime s') && Bool.eqb (srpc_up s) (srpc_up s'))] else []) ++ fl)
     else (s, if unauth_class p then [Inert true] else [])
+  else if (call =? CALL_SET_CHANNEL_CONFIG) || (call =? CALL_GET_CHANNEL_CONFIG_RESULT) then
+    (* RETREIVE_CHANNEL_CONFIG: only the ACTIONTRIGGER function is modelled (supla_esp_channel_config_result ->
+       supla_esp_input_set_active_triggers for every input of that channel); configs for relay / shutter functions
+       are outside this model (chcfg_unmodelled below) *)
+    if chcfg_is_at p then (with_inputs s (at_cfg (inputs s) (nthz p CHCFG_OFF_CHANNEL) (le32 p (CHCFG_OFF_CONFIG + ATCFG_OFF_ACTIONS))), [])
+    else (s, [])
   else (s, []).
 
 (* ---------- boot: supla_esp_cfg_init + user_init ---------- *)
@@ -477,10 +498,10 @@ Definition boot (b32 blnk flashcfg : Z) (ins : list input) (rs : list shutter) :
               cfgtmr := 0; silent := true; connectable := negb (incomplete b); srpc_up := false; registered := 0;
               inputs := map (fun x => if i_at x <? 0
                                        then {| i_type := i_type x; i_flags := i_flags x; i_relay := i_relay x; i_drelay := 255;
-                                               i_atcap := i_atcap x; i_at := 0; i_maxc := 0; i_last := STATE_INACTIVE; i_cnt := 0;
+                                               i_atcap := i_atcap x; i_chan := i_chan x; i_at := 0; i_maxc := 0; i_last := STATE_INACTIVE; i_cnt := 0;
                                                i_lsc := 0; i_armed := false; i_adv := false |}
                                        else set_active_triggers {| i_type := i_type x; i_flags := i_flags x; i_relay := i_relay x; i_drelay := 255;
-                                                                   i_atcap := i_atcap x; i_at := 0; i_maxc := 0; i_last := STATE_INACTIVE; i_cnt := 0;
+                                                                   i_atcap := i_atcap x; i_chan := i_chan x; i_at := 0; i_maxc := 0; i_last := STATE_INACTIVE; i_cnt := 0;
                                                                    i_lsc := 0; i_armed := false; i_adv := false |} (i_at x)) ins;
               (* gpio_init: tilt := -1 because the tilting time (Time3) of the stored image is 0 *)
               (* a blank flash (first boot) means factory defaults: no stored times, no tilt type *)
@@ -550,7 +571,7 @@ Definition hist (i : Z) (evs : list ev) : hrec := fold_left (hstep i) evs h0.
 
 (* ---------- wire interface ---------- *)
 Definition in_of_ints (l : list Z) : input :=
-  {| i_type := nthz l 0; i_flags := nthz l 1; i_relay := nthz l 2; i_drelay := 255; i_atcap := nthz l 3; i_at := nthz l 4;
+  {| i_type := nthz l 0; i_flags := nthz l 1; i_relay := nthz l 2; i_drelay := 255; i_atcap := nthz l 3; i_chan := nthz l 5; i_at := nthz l 4;
      i_maxc := 0; i_last := 0; i_cnt := 0; i_lsc := 0; i_armed := false; i_adv := false |}.
 Definition rs_of_ints (l : list Z) : shutter :=
   {| r_ex := negb (nthz l 0 =? 0); r_ch := nthz l 1; r_flags := nthz l 2; r_regflags := nthz l 3; r_tiltt := nthz l 4;
@@ -559,14 +580,14 @@ Definition rs_of_ints (l : list Z) : shutter :=
 Fixpoint chunks (k : nat) (n : nat) (l : list Z) : list (list Z) :=   (* n chunks of k ints *)
   match n with O => [] | S m => firstn k l :: chunks k m (skipn k l) end.
 
-(* BOOT ints: boot32 blank flashcfg nin {type flags relay atcap at}* nrs {ex ch flags regflags tilt upg dng t1 t2}* *)
+(* BOOT ints: boot32 blank flashcfg nin {type flags relay atcap at chan}* nrs {ex ch flags regflags tilt upg dng t1 t2}* *)
 Definition ev_of_wire (w : wire) : list ev :=
   let '(k, a, b) := w in
   if k =? 0 then
     let nin := Z.to_nat (nthz a 3) in
     let rest := skipn 4 a in
-    let ins := map in_of_ints (chunks 5 nin rest) in
-    let rest2 := skipn (5 * nin) rest in
+    let ins := map in_of_ints (chunks 6 nin rest) in
+    let rest2 := skipn (6 * nin) rest in
     let nrs := Z.to_nat (nthz rest2 0) in
     let rs := map rs_of_ints (chunks 9 nrs (skipn 1 rest2)) in
     [Boot (nthz a 0) (nthz a 1) (nthz a 2) ins rs]
